@@ -75,6 +75,36 @@ def histories():
         return a, b
     H["set_value-after-transcription"] = value_after
 
+    def concat_value_after_then(op):
+        """values of TWO parameters given through one concatenation after the first transcription, then something that
+        forces a re-transcription: the values must survive it"""
+        def f(m):
+            from rockit import MultipleShooting
+            def two(vals):
+                o, s = _base(m, pval=pv())
+                q = o.parameter(2)
+                o.subject_to(ufun("cq", 1, [s["x"], q]) <= 2)
+                if vals is not None:
+                    o.set_value(ca.vertcat(q, s["p"]), vals)
+                else:
+                    o.set_value(q, unknown("qv", 2, 1))
+                return o, s, q
+            a, s, q = two(None)
+            a._transcribed
+            a.set_value(ca.vertcat(q, s["p"]), ca.vertcat(unknown("qv2", 2, 1), pv2()))
+            b, t, q2 = two(ca.vertcat(unknown("qv2", 2, 1), pv2()))
+            for o, sy in ((a, s), (b, t)):
+                if op == "subject_to":
+                    o.subject_to(ufun("c9", 1, [sy["x"]]) <= 3)
+                elif op == "method":
+                    o.method(MultipleShooting(N=3))
+                elif op == "add_objective":
+                    o.add_objective(o.at_tf(ufun("m9", 1, [sy["x"]])))
+            return a, b
+        return f
+    for op in ("nothing", "subject_to", "method", "add_objective"):
+        H["set_value-of-a-concatenation-after-transcription-then-%s" % op] = concat_value_after_then(op)
+
     def solver_after(m):
         a, s = _base(m, pval=pv()); a._transcribed; a.solver("sqpmethod", {"qpsol": "qrqp"})
         b, t = _base(m, pval=pv(), solver=None); b.solver("sqpmethod", {"qpsol": "qrqp"})
